@@ -745,7 +745,7 @@ void
 lyd_insert_node(struct lyd_node *parent, struct lyd_node **first_sibling_p, struct lyd_node *node, uint32_t order)
 {
     LY_ERR ret = LY_SUCCESS;
-    struct lyd_node *first_sibling, *leader;
+    struct lyd_node *first_sibling, *leader, *orig_sibling = NULL;
 
     /* inserting list without its keys is not supported */
     assert((parent || first_sibling_p) && node && (node->hash || !node->schema));
@@ -756,6 +756,12 @@ lyd_insert_node(struct lyd_node *parent, struct lyd_node **first_sibling_p, stru
         parent = lyd_parent(*first_sibling_p);
     }
     first_sibling = parent ? lyd_child(parent) : *first_sibling_p;
+    if (!parent && first_sibling && first_sibling->prev->next) {
+        /* the caller holds another top-level sibling than the first one (such as the first node of a module),
+         * the anchor search and inserting as the last node need the real first sibling */
+        orig_sibling = first_sibling;
+        first_sibling = lyd_first_sibling(first_sibling);
+    }
 
     if ((order == LYD_INSERT_NODE_LAST) || !node->schema || (first_sibling && (first_sibling->flags & LYD_EXT))) {
         lyd_insert_node_last(parent, &first_sibling, node);
@@ -787,7 +793,12 @@ lyd_insert_node(struct lyd_node *parent, struct lyd_node **first_sibling_p, stru
     }
 
     if (first_sibling_p) {
-        *first_sibling_p = first_sibling;
+        if (orig_sibling) {
+            /* keep pointing at the sibling of the caller unless the node was inserted right before it */
+            *first_sibling_p = (node->next == orig_sibling) ? node : orig_sibling;
+        } else {
+            *first_sibling_p = first_sibling;
+        }
     }
 
 #ifndef NDEBUG
